@@ -30,6 +30,8 @@ def gen_case(rng: random.Random) -> dict[str, Any]:
             beh = {"ends": rng.choice([0, 1, 3, 6]), "exc": rng.randrange(3)}
         else:
             beh = {"forever": True}
+            if rng.random() < 0.3:
+                beh["excOnCancel"] = rng.randrange(3)       # raises while unwinding from the cancellation
         specs.append({"h": h, "beh": beh, "children": children.get(h, [])})
     for h in spawned_by_script:
         at = rng.randint(0, max(0, exit_at - 1))
@@ -61,7 +63,7 @@ def gen_case(rng: random.Random) -> dict[str, Any]:
         if "forever" in s["beh"]:
             script.append({"at": exit_at - 0.05, "op": "cancel", "h": s["h"]})
     script.sort(key=lambda x: x["at"])
-    return {"kind": "factory", "handler": rng.choice([None, True, False]), "pre_res": rng.sample([1, 2, 3], rng.randint(0, 3)),
+    return {"kind": "factory", "handler": rng.choice([None, True, False]), "handler_obj": rng.choice([None, None, "truthy", "falsy"]), "pre_res": rng.sample([1, 2, 3], rng.randint(0, 3)),
             "specs": specs, "script": script, "exit_at": exit_at, "nested_owner": rng.random() < 0.4}
 
 
@@ -151,6 +153,8 @@ class C09(Prop):
         for h in spawn_t:
             spec = next(s for s in case["specs"] if s["h"] == h)
             exc = spec["beh"].get("exc")
+            if exc is None:
+                exc = spec["beh"].get("excOnCancel")      # raised by the task's clean-up after a cancel through its handle
             calls = sum(1 for l in labels if l[0] == "handlerCalled" and l[1] == h)
             raised = any(l == ["taskEnded", h, exc] for l in labels) if exc is not None else False
             if handler is not None and raised and calls != 1:
